@@ -47,6 +47,9 @@ IDENTS_MORE = [
     b"WezTerm 20230712-072601-f4abf8fd", b"unknown_term(c)", b"KITTY(0.30.1)",
 ]
 
+GETS = ("colors", "colors-rgb", "colors-hex", "namever", "cell")
+TOGGLES = ("disable", "enable", "swap-on", "swap-off")
+
 KITTY_REPLIES = [b"OK", b"ENOTSUPPORTED:", b"EINVAL:unsupported action", None]
 
 
@@ -120,6 +123,33 @@ def execute(case, chooser):
                 elif step == "iterm2":
                     v = I.is_supported()
                 steps.append((step, v, tty.nwrites - w0, bytes(tty.inq), len(tty.pending)))
+        elif op == "history":
+            steps = []
+            out["steps"] = steps
+            for step in case["steps"]:
+                v = None
+                if step == "colors":
+                    v = L.utils.get_fg_bg_colors()
+                elif step == "colors-rgb":
+                    v = L.utils.get_fg_bg_colors(hex=False)
+                elif step == "colors-hex":
+                    v = L.utils.get_fg_bg_colors(hex=True)
+                elif step == "namever":
+                    v = L.utils.get_terminal_name_version()
+                elif step == "cell":
+                    v = L.utils.get_cell_size()
+                    v = None if v is None else tuple(v)
+                elif step == "disable":
+                    L.ti.disable_queries()
+                elif step == "enable":
+                    L.ti.enable_queries()
+                elif step == "swap-on":
+                    L.ti.enable_win_size_swap()
+                elif step == "swap-off":
+                    L.ti.disable_win_size_swap()
+                else:
+                    raise world.HarnessError(f"unknown step {step}")
+                steps.append((step, v, 0, bytes(tty.inq), len(tty.pending)))
         else:
             raise world.HarnessError(f"unknown op {op}")
     except world.HarnessError:
@@ -265,6 +295,42 @@ def judge(col, case, obs, choices):
                 okv = v == want
             if not okv:
                 bad("session-value", f"step {i} ({step}) of {case['steps']} reported {v!r}, expected {want!r}", step=step)
+    elif op == "history":
+        # reference state: queries enabled?, swap on?  A get made while queries are enabled must equal what
+        # the responder says under the current settings (enable_queries / the swap toggles invalidate what was
+        # memoised); while they are disabled the documented default or a still-valid earlier answer is accepted.
+        en, swap = bool(case.get("enabled", True)), bool(case.get("swap"))
+        cols, rows, xpx, ypx = case["win"]
+        nv = M.ref_name_version(r.get("xtversion"))
+        fg, bg = M.ref_colour(r.get("fg")), M.ref_colour(r.get("bg"))
+        for i, (step, v, nw, inq, pend) in enumerate(obs.get("steps", ())):
+            if inq or pend:
+                bad("input-drained", f"step {i} ({step}): reply bytes left unread: {inq!r} (+{pend} replies)", step=step)
+            if step == "disable":
+                en = False
+            elif step == "enable":
+                en = True
+            elif step == "swap-on":
+                swap = True
+            elif step == "swap-off":
+                swap = False
+            else:
+                if step in ("colors", "colors-rgb", "colors-hex"):
+                    chk = M.hex_ok if step == "colors-hex" else M.colour_ok
+                    full = isinstance(v, tuple) and len(v) == 2 and chk(v[0], fg) and chk(v[1], bg)
+                    okv = full or (not en and v == (None, None))
+                    want = (r.get("fg"), r.get("bg"), "as #rrggbb" if step == "colors-hex" else "as 0-255 triples")
+                elif step == "namever":
+                    okv = v == nv or (not en and v == (None, None))
+                    want = nv
+                else:
+                    want = M.ref_cell(cols, rows, xpx, ypx, r.get("t16"), r.get("t14"), swap, True)
+                    okv = v == want or (not en and v == M.ref_cell(cols, rows, xpx, ypx, None, None, swap, False))
+                if not okv:
+                    hist = case["steps"][:i + 1]
+                    bad("history-value", f"after {hist} (queries {'enabled' if en else 'disabled'}, swap {swap}) {step} "
+                        f"reported {v!r}, the terminal says {want!r}", step=step, queries="enabled" if en else "disabled",
+                        after_toggle=next((t for t in reversed(hist[:-1]) if t in TOGGLES), "none"))
     elif op == "auto":
         name, version = M.ref_name_version(r.get("xtversion")) if enabled else (None, None)
         kreply =_enc(r.get("kitty")) if enabled else None
@@ -412,6 +478,19 @@ def build_cases(tier):
         for resp in sess_resp:
             add(dict(part="H", op="session", steps=list(steps) + ["kitty", "iterm2"], win=(80, 24, 0, 0), resp=resp,
                      bound=2 if quick else (4 if resp is sess_resp[0] else 3)))
+    # ---- I: histories - every sequence of gets and toggles (disable/enable_queries, win-size swap on/off) that
+    #         ends with a get, up to the length of the tier; the explicit hex=False / hex=True forms are operations
+    hist_resp = dict(fg="rgb:ff/80/00", bg="rgb:1234/5678/9abc", xtversion="foot(1.16.2)", t16=None, t14=(384, 560), da1=True)
+    hl = 4 if quick else 5
+    for n in range(1, hl + 1):
+        for seq in itertools.product(GETS + TOGGLES, repeat=n):
+            if seq[-1] not in GETS:
+                continue
+            if n == hl and not any(t in TOGGLES for t in seq) and len(set(seq)) == n and n > 2:
+                pass
+            for win in ((80, 24, 0, 0),) + (() if quick or n == hl else ((80, 24, 800, 480),)):
+                add(dict(part="I", op="history", steps=list(seq), win=win, resp=hist_resp,
+                         bound=0 if (n == hl or quick) else 1))
     # ---- G: outside the premise - a wait may expire with replies still to come (bounded deviations)
     gb = 2 if quick else 4
     for op, resp, win in (
@@ -487,6 +566,8 @@ def run(ctx):
                    E="is_supported / auto_image_class / AutoImage / from_file: identity x kitty reply x DA1 x every schedule",
                    F="queries disabled / mute terminal",
                    H="sessions: every order of colours/name/cell/auto in one process, deviation bound %s" % ("2" if quick else "4 (first terminal) / 3"),
+                   I="histories: every sequence over {colours bare/hex=False/hex=True, name, cell, disable/enable_queries, "
+                     "swap on/off} ending with a get, length <= %d" % (4 if quick else 5),
                    G="late replies (outside premise), deviation bound %d" % (2 if quick else 4)),
         schedule_bound="unbounded (whole choice tree) in parts B-F; 0 in A",
         delays=["0", "0.001 s", "0.98 x remaining timeout"], timeouts=[0.1] if quick else [0.1, 0.03],
